@@ -5,6 +5,8 @@ pub mod bytecode;
 pub mod heap;
 pub mod object;
 pub mod value;
+#[cfg(vbxq_aelys_lang_verif)]
+pub mod verif;
 
 pub use asm::*;
 pub use bytecode::*;
